@@ -554,6 +554,47 @@ def deductive(rep: Report, tier):
         return [slf, fresh_hmat("A", m, n)], {}, None
     run_case(rep, P, HYB + "compute", "guard_tall", setup_hw, raises_value_error, lib=lib, contracts=ch, clauses=["raises_ValueError"])
 
+    # ---------------- Newton-Schulz fallback: every iteration squares the residual  I - A X' = (I - A X)^2
+    class TraceRule(LoopRule):
+        skip_body = True
+        modifies = ("tr",)
+
+        def havoc(self, it, fr, k):
+            fr.vars["tr"] = SReal.var(cur().fresh_name("trace"))
+
+    class NsRule(LoopRule):
+        modifies = ("X",)
+
+        def havoc(self, it, fr, k):
+            A = fr.vars["A"]
+            Xk = fresh_hmat("Xk", A.shape[0], A.shape[0])
+            fr.vars["X"] = Xk
+            cur().ghost["Xk"] = Xk
+
+        def preserve(self, it, fr, k):
+            c = cur()
+            A, X, Xk = fr.vars["A"].p, fr.vars["X"].p, c.ghost["Xk"].p
+            r = fr.vars["A"].shape[0]
+            E = NC.eye(r) - A @ Xk
+            st, be, secs, wit = ncm.nc_equal_obligation(NC.eye(r) - A @ X, E @ E, c.hyps())
+            c.require("inv.preserve", st == smt.PROVED, f"I - A X' = (I - A X)^2: {wit}", key="ns.step.residual_is_squared")
+
+    def setup_inv(I, ctx):
+        (r,) = dims(ctx, "r")
+        K = SInt.var("ns_iters")
+        ctx.assume(K >= 0, base=True)
+        A = fresh_hmat("A", r, r)
+        slf = mk_self(I, "RandomizedSketchProjectPseudoinverse", block_size=4, max_iter=10, tol=Fraction(1, 1000), test_sketch_size=8, verbose=False, seed=None, column_solver="spd")
+        return [slf, A], dict(ns_iters=K), dict(A=A, r=r)
+
+    def post_inv(I, ctx, outcome, val, aux):
+        if outcome == "loop_end":
+            return []
+        return [("returns_square_matrix", outcome == "return" and isinstance(val, HMat) and ctx.valid(sand(val.shape[0] == aux["r"], val.shape[1] == aux["r"])) is True)]
+    run_case(rep, P, RSP + "_invert_quat_small", "step", setup_inv, post_inv, lib=lib, contracts=dict(ALGEBRA),
+             loop_rules={(RSP + "_invert_quat_small", 0): TraceRule(), (RSP + "_invert_quat_small", 1): NsRule()},
+             clauses=["returns_square_matrix"], replay=replay_rsp, timeout_s=30)
+
     # ---------------- CGNE
     for prec in (False, True):
         class CgRule(LoopRule):
